@@ -38,7 +38,8 @@ class C08(core.Prop):
             "with every other combination {unset, Never, Also, Only} per connection x a snooping client x payload lengths across the 1024-byte read "
             "size and the 2048-character threshold (quick: 39 edge lengths; thorough: every length 0..2300 and 10 KB - 1 MB) x contents (all 256 "
             "byte values, markup bytes, random) x formats incl. markup characters x fragmentation {whole, 1 byte, 1024, random} x direction "
-            "(driver -> clients, client -> driver), each followed by ordinary traffic in both directions; non-trivial = a payload arrived somewhere")
+            "(driver -> clients, client -> driver), each followed by ordinary traffic in both directions; the empty payload over a non-empty one and over "
+            "nothing, in both directions; non-trivial = a payload arrived somewhere")
     assumptions = ["messages above the 2048-character threshold on threshold-enabled links are known finding K1; the traffic that follows them must still flow"]
     per_case_timeout = 60
 
